@@ -1018,7 +1018,7 @@ func (t *Tokenizer) readQuotedString(quote rune) (models.Token, error) {
 		if r == '\\' {
 			// Handle escape sequences
 			if err := t.handleEscapeSequence(&buf); err != nil {
-				return models.Token{}, errors.InvalidSyntaxError(
+				return models.Token{}, invalidEscapeError(
 					fmt.Sprintf("invalid escape sequence: %v", err),
 					t.getCurrentPosition(),
 					string(t.input),
@@ -1127,7 +1127,7 @@ func (t *Tokenizer) handleEscapeSequence(buf *bytes.Buffer) error {
 	case 't':
 		buf.WriteRune('\t')
 	default:
-		return errors.InvalidSyntaxError(
+		return invalidEscapeError(
 			fmt.Sprintf("invalid escape sequence '\\%c'", r),
 			t.getCurrentPosition(),
 			string(t.input),
